@@ -113,7 +113,16 @@ SStep(st, lb) ==
     [] lb.op = "eraseLoop" ->
          SR(SUpd(st, c, RemoveIf(c, x, LAMBDA e : e % 2 = lb.n)),
             SValR(Cardinality({i \in 1..n : x.elems[i] % 2 # lb.n})))
+    \* erase_if (C++20): removes every element with v % 2 = n, returns how many
+    [] lb.op = "eraseIf" ->
+         SR(SUpd(st, c, RemoveIf(c, x, LAMBDA e : e % 2 = lb.n)), SValR(Cardinality({i \in 1..n : x.elems[i] % 2 = lb.n})))
     [] lb.op = "clear"    -> SR(SUpd(st, c, [x EXCEPT !.elems = <<>>, !.large = FALSE]), SNoRet)
+    \* the sorted vector interface of FlatSet (AMC_NONSTD_FEATURES): positions are positions of the iteration
+    [] lb.op = "front"    -> SR(st, SValR(x.elems[1]))
+    [] lb.op = "back"     -> SR(st, SValR(x.elems[n]))
+    [] lb.op = "index"    -> SR(st, SValR(x.elems[lb.h + 1]))
+    [] lb.op = "at"       -> IF lb.h >= n THEN SR(st, SRet("exc", 0, 0, <<>>)) ELSE SR(st, SValR(x.elems[lb.h + 1]))
+    [] lb.op \in {"reserve", "shrinkToFit"} -> SR(st, SNoRet)      \* capacity is not part of the meaning of a set
     [] lb.op \in {"find", "findK"}       -> SR(st, ItR(IF Has(x, lb.v) THEN RepOf(x, lb.v) ELSE END))
     [] lb.op \in {"contains", "containsK"} -> SR(st, SBoolR(Has(x, lb.v)))
     [] lb.op \in {"count", "countK"}     -> SR(st, SValR(IF Has(x, lb.v) THEN 1 ELSE 0))
@@ -141,6 +150,9 @@ SStep(st, lb) ==
               IN SR([st EXCEPT !.s[c] = SetPri(c, x.pri, InsertOneC(c, x, v)), !.node = IF ins THEN NoNode ELSE st.node],
                     InsR(IF ins THEN v ELSE RepOf(x, v), ins))
     [] lb.op = "dropNode" -> SR([st EXCEPT !.node = NoNode], SNoRet)
+    \* the value of an extracted node may be changed before it is inserted again (the point of node handles)
+    [] lb.op = "nodeSetValue" -> SR([st EXCEPT !.node.v = lb.v], SNoRet)
+    [] lb.op = "nodeValue"    -> SR(st, SValR(st.node.v))
     [] lb.op \in {"mergeSame", "mergeOther"} ->
          \* every element of the source without an equivalent in the destination moves over, the others stay
          IF c = d THEN SR(st, SNoRet)
@@ -228,11 +240,13 @@ SLookupsK == {"findK", "containsK", "countK", "lowerBoundK", "upperBoundK", "low
 SBin == {"swap", "assignCopy", "assignMove", "eq", "ne", "lt", "le", "gt", "ge", "mergeSame"}
 SCtors == {"ctorDefault", "ctorRange", "ctorIlist", "ctorFromVec", "ctorCopy", "ctorMove"}
 SFlatOnly == {"ctorFromVec", "assignVec", "stealVector", "lowerBound", "upperBound", "equalRange", "lowerBoundK", "upperBoundK",
-              "lowerBoundC", "upperBoundC"}
+              "lowerBoundC", "upperBoundC", "front", "back", "index", "at", "reserve", "shrinkToFit"}
+SNodeOps == {"dropNode", "nodeSetValue", "nodeValue"}
 SAllOps == SLookups \cup SLookupsK \cup SBin \cup SCtors \cup
            {"destroy", "insert", "insertRv", "emplace", "insertHint", "insertHintRv", "emplaceHint", "insertRange", "insertIlist",
             "assignIlist", "assignVec", "eraseKey", "erasePos", "eraseRange", "eraseLoop", "clear", "iterate", "relocate",
-            "extractKey", "extractPos", "insertNode", "insertNodeHint", "dropNode", "mergeOther", "stealVector"}
+            "extractKey", "extractPos", "insertNode", "insertNodeHint", "dropNode", "mergeOther", "stealVector",
+            "eraseIf", "front", "back", "index", "at", "reserve", "shrinkToFit", "nodeSetValue", "nodeValue"}
 
 SOpLabels(st, c, o, Keys, Cms, Its, RLens, MaxLen) ==
   LET x == st.s[c]
@@ -262,11 +276,17 @@ SOpLabels(st, c, o, Keys, Cms, Its, RLens, MaxLen) ==
       [] o \in {"eraseKey", "extractKey"} \cup SLookups \cup SLookupsK -> {SLbl(o, c, 0, v, 0, 0, 0, "", <<>>) : v \in Keys}
       [] o \in {"erasePos", "extractPos"} -> {SLbl(o, c, 0, 0, h, 0, 0, "", <<>>) : h \in 0..n - 1}
       [] o = "eraseRange" -> {SLbl(o, c, 0, 0, pq[1], pq[2], 0, "", <<>>) : pq \in {w \in (0..n) \X (0..n) : w[1] <= w[2]}}
-      [] o = "eraseLoop"  -> {SLbl(o, c, 0, 0, 0, m, 0, "", <<>>) : m \in 0..1}
+      [] o \in {"eraseLoop", "eraseIf"} -> {SLbl(o, c, 0, 0, 0, m, 0, "", <<>>) : m \in 0..1}
+      [] o \in {"front", "back"} -> IF n > 0 THEN {SLbl(o, c, 0, 0, 0, 0, 0, "", <<>>)} ELSE {}
+      [] o = "index"      -> {SLbl(o, c, 0, 0, h, 0, 0, "", <<>>) : h \in 0..n - 1}
+      [] o = "at"         -> {SLbl(o, c, 0, 0, h, 0, 0, "", <<>>) : h \in 0..n}
+      [] o = "reserve"    -> {SLbl(o, c, 0, 0, 0, m, 0, "", <<>>) : m \in {0, n + 1, MaxLen + 2}}
+      [] o = "shrinkToFit" -> {SLbl(o, c, 0, 0, 0, 0, 0, "", <<>>)}
       [] o \in {"clear", "iterate", "relocate", "destroy", "stealVector"} -> {SLbl(o, c, 0, 0, 0, 0, 0, "", <<>>)}
       [] o = "insertNode" -> IF st.node.has /\ st.node.t = STypeId[c] /\ (Room(n + 1) \/ Has(x, st.node.v)) THEN {SLbl(o, c, 0, 0, 0, 0, 0, "", <<>>)} ELSE {}
       [] o = "insertNodeHint" -> IF st.node.has /\ st.node.t = STypeId[c] /\ (Room(n + 1) \/ Has(x, st.node.v)) THEN {SLbl(o, c, 0, 0, h, 0, 0, "", <<>>) : h \in 0..n} ELSE {}
-      [] o = "dropNode"   -> IF st.node.has /\ c = 1 THEN {SLbl(o, c, 0, 0, 0, 0, 0, "", <<>>)} ELSE {}
+      [] o \in {"dropNode", "nodeValue"} -> IF st.node.has /\ c = 1 THEN {SLbl(o, c, 0, 0, 0, 0, 0, "", <<>>)} ELSE {}
+      [] o = "nodeSetValue" -> IF st.node.has /\ c = 1 THEN {SLbl(o, c, 0, v, 0, 0, 0, "", <<>>) : v \in Keys} ELSE {}
       [] o = "mergeSame"  -> {SLbl(o, c, d, 0, 0, 0, 0, "", <<>>) : d \in {e \in Same : Room(n + Len(st.s[e].elems))}}
       [] o = "mergeOther" -> {SLbl(o, c, d, 0, 0, 0, 0, "", <<>>) :
                                 d \in {e \in SSlots : st.s[e].ex /\ SCmpType[e] # SCmpType[c] /\ SFlav[e] = SFlav[c]
